@@ -121,6 +121,7 @@ pub(crate) struct PositionCalculator<'a> {
     pos: usize,
     line: usize,
     column: usize,
+    after_cr: bool,
 }
 
 impl<'a> PositionCalculator<'a> {
@@ -130,6 +131,7 @@ impl<'a> PositionCalculator<'a> {
             pos: 0,
             line: 1,
             column: 1,
+            after_cr: false,
         }
     }
 
@@ -141,14 +143,22 @@ impl<'a> PositionCalculator<'a> {
         for ch in chars_to_read {
             match ch {
                 '\r' => {
-                    self.column = 1;
-                }
-                '\n' => {
+                    // a carriage return ends a line, whether or not a line feed follows
                     self.line += 1;
                     self.column = 1;
+                    self.after_cr = true;
+                }
+                '\n' => {
+                    // the line feed of a "\r\n" pair was already counted at the '\r'
+                    if !self.after_cr {
+                        self.line += 1;
+                    }
+                    self.column = 1;
+                    self.after_cr = false;
                 }
                 _ => {
                     self.column += 1;
+                    self.after_cr = false;
                 }
             }
         }
